@@ -17,7 +17,11 @@ RULE = ("template texts over every token kind (all opcode names, aliases 0..16, 
         "one-byte pushes, templates from from_script / from_script_impl / from_asm_string(to_asm_string) compared, exact/min/max at "
         "0, 1, 2^8, 2^16, 2^31, 2^32, 2^53, 2^63-1, 2^63, 2^64-1 (and neighbours) on outputs and inputs, first match at every "
         "position; every op cross-checks the alternative entry points (matches / match_impl / is_match / test_impl, criteria built "
-        "from the setters' returned clones and Default, add_outputs / add_inputs, cloned transaction); "
+        "from the setters' returned clones and Default, add_outputs / add_inputs, cloned transaction); call-history stream "
+        "tx.match_history: one MatchCriteria and one Transaction observed after every step - the four setters in all 24 orders (also "
+        "continuing on the returned value / on clones), fields set twice, zero and maximal bounds, input annotations (satoshis, "
+        "locking and unlocking script) set or changed in every order before and after the criteria, transaction clone and "
+        "serialise/parse at every position; scripts assembled in memory from lone opcode bits (finalised script fails to parse); "
         "non-trivial = the model returns OK; distinct by (op, arguments)")
 TRUSTED = ["hand-written Gallina models coq/Model/Template.v (src/script/script_template.rs) and coq/Model/Criteria.v "
            "(src/transaction/match_criteria.rs, TxIn::get_finalised_script_impl), over Model/Asm.v and Model/Script.v (tied by this run)",
@@ -278,6 +282,44 @@ def generate(rng, tier):
         cases.append(("tx.match_outputs", [outs, th("OP_1"), "7", "-", "-"])); cases.append(("tx.match_outputs", [outs, "-", "-", "7", "7"]))
         cases.append(("tx.match_inputs", [ins, th("OP_1"), "-", "7", "-"])); cases.append(("tx.match_inputs", [ins, "-", "7", "-", "-"]))
     cases.append(("tx.match_outputs", ["1=52/1=52", th("OP_1"), "-", "-", "-"])); cases.append(("tx.match_inputs", ["1=52=-/1=52=-", th("OP_1"), "-", "-", "-"]))
+    # STATE / CALL HISTORY: observe -> mutate -> observe on ONE MatchCriteria and ONE Transaction (op tx.match_history)
+    import itertools
+    HI = lambda kind, items, steps: cases.append(("tx.match_history", [kind, items, "/".join(steps)]))
+    outs5 = "4=51/5=51/6=52/7=51/5=76a914+r:11:20+88ac/0=51"
+    ins5 = "4=51=-/5=51=-/-=51=-/7=52=-/5=51=52/0=51=-"
+    T1, T2, TP2 = "t=" + th("OP_1"), "t=" + th("OP_DUP OP_HASH160 OP_PUBKEYHASH OP_EQUALVERIFY OP_CHECKSIG"), "t=" + th("OP_1 OP_2")
+    setters = ["v=5", "n=4", "x=6", T1]
+    for perm in itertools.permutations(setters):                 # builder chain in every order, observed after every call
+        HI("o", outs5, list(perm)); HI("i", ins5, list(perm))
+        HI("o", outs5, [x for st in perm for x in (st, "r")])    # continue on the value each setter returned
+        HI("i", ins5, [x for st in perm for x in (st, "c")])     # continue on clones
+    for a, b in itertools.permutations(["v=5", "v=7", "n=5", "n=8", "x=5", "x=3", "v=0", "n=0", "x=0", T1, T2, TP2, "x=18446744073709551615", "n=9223372036854775808"], 2):
+        HI("o", outs5, [a, b]); HI("i", ins5, [a, b])           # a field set twice / conflicting bounds / zero values
+    for pos in range(0, 4):                                      # clone / serialise-parse of the transaction at every position
+        for mark in ["k", "b"]:
+            st = ["n=5", T1, "x=6"]
+            st.insert(pos, mark)
+            HI("o", outs5, st); HI("i", ins5, st); HI("i", "5=51=52/5=51=-/-=51=52", st + ["s=0.5", "l=1.52", mark])
+    # input annotations set / changed after the first observation, every order, conflicting with the criteria
+    ann = ["s=0.5", "l=0.52", "u=0.51", "s=1.6", "l=1.51", "u=1.52"]
+    for perm in itertools.permutations(["s=0.5", "l=0.52", "u=0.51"]):
+        HI("i", "-=52=-/-=51=-", ["v=5", TP2] + list(perm)); HI("i", "-=52=-/-=51=-", list(perm) + ["v=5", TP2])
+        HI("i", "9=51=51/5=51=52", [T1, "n=5"] + list(perm) + ["k"] + list(perm)[::-1])
+    for a, b in itertools.permutations(ann, 2):
+        HI("i", "-=51=-/-=51=-", [TP2, "x=5", a, b]); HI("i", "7=52=51/7=52=-", ["v=5", a, TP2, b])
+    for st in [["s=0.0", "v=0"], ["v=0", "s=0.0"], ["n=0"], ["x=0", "s=0.0"], ["s=0.18446744073709551615", "x=18446744073709551615", "n=18446744073709551615"],
+               ["t=" + th(""), "u=0."], ["u=0.", "t=" + th("")], ["l=0.", TP2], ["l=0.", T1, "u=0.", "l=0.51"]]:
+        HI("i", "-=51=-/3=51=52", st)
+    for st in [["w=0.5", "v=5"], ["v=5", "w=0.5", "w=1.5", "w=0.4"], ["n=5", "x=5", "w=2.5", "b", "w=2.6"], ["w=0.0", "v=0"],
+               ["t=" + th("bogus")], ["t=" + th("OP_DATAxyz>=1"), "v=5"], ["t=" + th("OP_DATA>=1"), "w=5.7", "v=7"]]:
+        HI("o", outs5, st)
+    # scripts assembled in memory from lone opcode bits: the finalised script of an input can then fail to parse (Err arm of
+    # the boolean entry points), or parse into something else than the object
+    for unl, lock in [("z63", "-"), ("z63", "51"), ("z63", "68"), ("z6351", "68"), ("z63", "6768"), ("z68", "z63"), ("z6768", "-"), ("z5163", "5168"), ("z65", "68"), ("z66", "-"), ("z", "51")]:
+        for t in ["-", th("OP_IF"), th("OP_IF OP_ENDIF"), th("OP_DATA"), th("OP_IF OP_1"), th("OP_VERIF OP_ENDIF")]:
+            cases.append(("tx.match_inputs", ["5=%s=%s/5=51=-" % (unl, lock), t, "-", "-", "-"]))
+        HI("i", "5=51=-/5=51=-", [T1, "u=0." + unl, "l=0." + lock if lock != "-" else "c", "k", "u=0.51"])
+    cases.append(("tx.match_outputs", ["5=z63/5=z51/5=z6368", th("OP_IF"), "-", "-", "-"])); cases.append(("tx.match_outputs", ["5=z63/5=z6368", th("OP_IF OP_ENDIF"), "5", "-", "-"]))
     # fixed boundary probes: equality and off-by-one on every bound
     for v in [4, 5, 6]:
         for (e, mn, mx) in [("5", "-", "-"), ("-", "5", "-"), ("-", "-", "5"), ("-", "5", "5"), ("-", "6", "4"), ("5", "5", "5"), ("5", "6", "-"), ("5", "-", "4")]:
